@@ -7,17 +7,21 @@ ALL_FAMILIES = ["seq2", "seq3", "alt2", "altseq", "seqalt", "grpq", "grpq2", "nc
                 "lookg", "atom", "anchor", "anchor2", "cond", "condx", "nested", "opti", "optm", "opts"]
 
 
-def gen_find(ctx, res, families, o, dia, rtl, alpha, maxlen, stride, offset, label, timeout=3000):
-    params = {"families": families, "o": list(o), "dia": dia, "rtl": rtl, "alpha": alpha, "maxlen": maxlen,
-              "stride": stride, "offset": offset}
+def gen_find(ctx, res, families, o, dia, rtl, alpha, maxlen, stride, offset, label, timeout=3000, variants=None):
+    """variants: list of {spelling, so, o}; default = the plain spelling compiled with o"""
+    variants = variants or [{"spelling": "plain", "so": [], "o": list(o)}]
+    params = {"families": families, "dia": dia, "rtl": rtl, "alpha": alpha, "maxlen": maxlen,
+              "stride": stride, "offset": offset, "variants": variants}
     ppath = os.path.join(ctx.dir, f"params-{label}.json")
     json.dump(params, open(ppath, "w"))
     out = ctx.tlc("Gen_Find", "Obs.cfg", env_extra={"VERIF_PARAMS": ppath}, timeout=timeout)
     if out["tags"].get("WFERR"):
         raise vlib.Broken("Gen_Find produced an ill-formed table")
+    if out["tags"].get("SPECDIFF"):
+        raise vlib.Broken(f"the specification itself distinguishes the inline spelling from the compile-time options: {out['tags']['SPECDIFF'][:3]}")
     gpath = os.path.join(ctx.dir, f"gen-{label}.txt")
     open(gpath, "w").write(out["raw"])
-    args = ["replay-find", "-i", gpath, "-o", "".join(o), "-dia", dia]
+    args = ["replay-find", "-i", gpath, "-dia", dia]
     if rtl:
         args.append("-rtl")
     p = ctx.run_vh(args)
